@@ -147,6 +147,45 @@ class A(Adapter):
             return "all_nodes_coloured"
         return None
 
+    # ---- reach probes ---------------------------------------------------------------------------
+    def events(self, ps, action, s, ts, env, cfg):
+        if ps is None:
+            adj = np.asarray(s.adj_matrix).astype(bool)
+            adj = adj | adj.T
+            n = adj.shape[0]
+            edges = int(np.triu(adj, 1).sum())
+            ev = ["reset_no_edges"] if edges == 0 else (["reset_complete_graph"] if edges == n * (n - 1) // 2 else [])
+            if n > 1 and (adj.sum(axis=1) == 0).any():
+                ev.append("reset_isolated_node")
+            return ev
+        adj, pc, node = np.asarray(ps.adj_matrix), np.asarray(ps.colors), int(ps.current_node_index)
+        a = int(action)
+        allowed = self._allowed(adj, pc, node)
+        last = int(ts.step_type) == 2
+        if not allowed[a]:
+            return ["ended_invalid_colour"] if last else []
+        used = sorted(set(int(c) for c in pc[pc >= 0]))
+        ev = ["colour_reused" if a in used else "new_colour_introduced"]
+        if a > 0 and not allowed[:a].any():
+            ev.append("all_lower_colours_blocked")
+        if used and not any(allowed[c] for c in used):
+            ev.append("all_used_colours_blocked")  # the node is forced to a colour nobody carries yet
+        if allowed[:a].any():
+            ev.append("lower_allowed_colour_skipped")
+        if allowed.all():
+            ev.append("node_without_coloured_neighbour")
+        if a == len(pc) - 1:
+            ev.append("highest_colour_index_played")
+        nc = np.asarray(s.colors)
+        if (nc >= 0).all():
+            ev.append("ended_all_nodes_coloured")
+            k = len(set(int(c) for c in nc))
+            if k == len(nc):
+                ev.append("finished_with_n_colours")
+            if k <= 2:
+                ev.append("finished_with_le_2_colours")
+        return ev
+
     # ---- C12 -------------------------------------------------------------------------------------
     def observe(self, s, obs, env, cfg):
         for f in ("adj_matrix", "colors", "action_mask"):
